@@ -111,6 +111,9 @@ var c05Names = []string{
 	"big.sec.test.",      // 17 TXT answer above the server's 1232-byte UDP ceiling, below 4096
 }
 
+// c05AliasTarget: alias name index -> index of the name its chain ends at.
+var c05AliasTarget = map[int]int{1: 0, 2: 7, 16: 0}
+
 func c05Spec(sc *C05Scenario) *world.Spec {
 	return &world.Spec{
 		Zones: []world.ZoneSpec{
@@ -505,10 +508,16 @@ func runC05(sc *C05Scenario, tr *kit.Trace) *kit.Result {
 		}
 		tr.Add("op %d c%d %s/%s edns=%v do=%v opts=%d -> wire %dB rcode=%s, decoded %dB", i, op.Client, c05Names[op.Name%len(c05Names)], dns.TypeToString[op.Type], op.EDNS, op.DO, len(op.Opts), len(wire[i]), rc, len(dec[i]))
 		tr.Shape(fmt.Sprintf("%d:%d:%v:%v:%d:%s", op.Name, op.Type, op.EDNS, op.DO, len(op.Opts), rc))
-		if a != b && sc.Prefetch > 0 && c05NoTTL(a) == c05NoTTL(b) && strings.Contains(a, "\tCNAME\t") {
+		hopOfEarlierAlias := false
+		for j := 0; j < i; j++ {
+			if t, isAlias := c05AliasTarget[sc.Ops[j].Name%len(c05Names)]; isAlias && t == op.Name%len(c05Names) {
+				hopOfEarlierAlias = true // the same divergence, seen by a later direct question for the hop
+			}
+		}
+		if a != b && sc.Prefetch > 0 && c05NoTTL(a) == c05NoTTL(b) && (strings.Contains(a, "\tCNAME\t") || hopOfEarlierAlias) {
 			// the documented divergence of the wire chase composer: hops served through it do not
 			// tick the prefetch machinery, the Msg-path chase does (entry_wire_chase.go)
-			res.Fail("C05/prefetch-divergence-on-wire-chase", "op %d (%s/%s): with prefetch=%d%% the alias reply composed on the wire path and the one composed on the decoded path differ in TTLs only — the decoded chase refreshed a hop the wire chase did not\n--- wire path:\n%s--- decoded path:\n%s",
+			res.Fail("C05/prefetch-divergence-on-wire-chase", "op %d (%s/%s): with prefetch=%d%% the replies of the wire path and of the decoded path for an alias (or for the target of an alias asked earlier) differ in TTLs only — the decoded chase refreshed a hop the wire chase did not\n--- wire path:\n%s--- decoded path:\n%s",
 				i, c05Names[op.Name%len(c05Names)], dns.TypeToString[op.Type], sc.Prefetch, a, b)
 			return res
 		}
